@@ -12,9 +12,9 @@ git diff -- . ':(exclude)out' > /tmp/seed-$tag.cur.diff
 git diff -- . ':(exclude)out' > $out/patch.diff
 export GOFLAGS=-mod=mod
 echo "--- demo WITH the change (must fail)"; ( eval "$demo" ) > $out/demo_with.log 2>&1; rc_with=$?
-git stash -q
+git checkout -q -- . 
 echo "--- demo WITHOUT the change (must pass)"; ( eval "$demo" ) > $out/demo_without.log 2>&1; rc_without=$?
-git stash pop -q
+git apply $out/patch.diff
 git checkout -q go.sum 2>/dev/null
 echo "rc_with=$rc_with rc_without=$rc_without"
 cp out/*demo* $out/ 2>/dev/null
